@@ -1,5 +1,326 @@
 import RV.Json
+import RV.Model.Ingress
+import RV.Oracle.C14
+/-!
+Driver for suite `ingress` (property C14).
+
+ops
+* `build` — `buildCanaryIngress`.  in `{class,name,stableSvc,canarySvc,ingress}`,
+  impl `{name,owner,ingress}` or `{panic:true}`.
+* `lua`   — one run of the class's annotation script.  in `{class,ann,weight,matches,rhm}`,
+  impl `{ann}` or `{err:true}`.
+* `lua2`  — `r1 = script a s1`, `r12 = script r1 s2`, `r2 = script a s2`.
+* `seq`   — `EnsureRoutes` / `Finalise` / `addFinalizer` calls on a fake client;
+  impl `{steps:[{done,err,canary,stableSame,writes} | {panic:true}]}`.
+-/
 namespace RV.Drv.Ingress
-open Lean RV
-def handle : Handler := fun op _ _ => .error s!"Ingress: op {op} not implemented"
+open Lean RV RV.Ingress RV.Oracle.C14
+
+/-! ### JSON in -/
+
+def annOf (j : Json) : R AnnMap :=
+  match j with
+  | .null => .ok []
+  | .obj kvs => kvs.foldl (init := .ok []) fun acc k v => do
+      let l ← acc
+      return l ++ [(k, ← jstr v)]
+  | _ => .error s!"annotations: object expected in {j.compress}"
+
+def fAnn (j : Json) (k : String) : R AnnMap := do annOf (← jget j k)
+
+def classOf (s : String) : R Class :=
+  match s with
+  | "" => .ok .nginx
+  | "nginx" => .ok .nginx
+  | "aliyun-alb" => .ok .alb
+  | "higress" => .ok .higress
+  | "mse" => .ok .mse
+  | _ => .error s!"unknown class {s}"
+
+def cfgOf (j : Json) : R Cfg := do
+  return { cls := ← classOf (← fStr j "class"), name := ← fStr j "name",
+           stableSvc := ← fStr j "stableSvc", canarySvc := ← fStr j "canarySvc" }
+
+def svcOf (j : Json) : R SvcBackend := do
+  return { name := ← fStr j "name", portName := ← fStr j "portName", portNumber := ← fInt j "portNumber" }
+
+def pathOf (j : Json) : R Path := do
+  let svc ← match jopt j "svc" with
+    | none => pure none
+    | some v => do pure (some (← svcOf v))
+  return { path := ← fStr j "path", pathType := ← fOptStr j "pathType",
+           backend := { service := svc, resource := ← fOptStr j "res" } }
+
+def ruleOf (j : Json) : R Rule := do
+  let http ← match jopt j "http" with
+    | none => pure none
+    | some v => do pure (some (← jlistM pathOf v))
+  return { host := ← fStr j "host", http := http }
+
+def tlsOf (j : Json) : R TLS := do
+  return { hosts := ← jlistM jstr (← jget j "hosts"), secret := ← fStr j "secret" }
+
+def ingressOf (j : Json) : R Ingress := do
+  return { ann := ← fAnn j "ann", labels := ← fAnn j "labels", className := ← fOptStr j "className",
+           tls := ← jlistM tlsOf (← jget j "tls"), defaultBackend := ← fBool j "defaultBackend",
+           rules := ← jlistM ruleOf (← jget j "rules") }
+
+def headerOf (j : Json) : R HeaderMatch := do
+  return { name := ← fStr j "name", value := ← fStr j "value", kind := ← fOptStr j "type" }
+
+def matchOf (j : Json) : R HttpMatch := do
+  return { headers := ← jlistM headerOf (← jget j "headers"),
+           queryParams := ← jlistM headerOf (← jget j "queryParams") }
+
+def optMatches (j : Json) : R (Option (List HttpMatch)) :=
+  match jopt j "matches" with
+  | none => .ok none
+  | some v => do return some (← jlistM matchOf v)
+
+def kvOf (j : Json) : R HeaderKV := do
+  return { name := ← fStr j "name", value := ← fStr j "value" }
+
+def optRhm (j : Json) : R (Option (List HeaderKV)) :=
+  match jopt j "rhm" with
+  | none => .ok none
+  | some v => do return some (← jlistM kvOf (← jget v "set"))
+
+def strategyOf (j : Json) : R Strategy := do
+  return { traffic := ← fOptStr j "traffic", mts := ← optMatches j, rhm := ← optRhm j }
+
+structure GoLuaStep where
+  weight : Option Int
+  mts : Option (List HttpMatch)
+  rhm : Option (List HeaderKV)
+
+def goLuaStepOf (j : Json) : R GoLuaStep := do
+  return { weight := ← fOptInt j "weight", mts := ← optMatches j, rhm := ← optRhm j }
+
+def callOf (j : Json) : R Call := do
+  match ← fStr j "op" with
+  | "ensure" => return .ensure (← strategyOf (← jget j "strategy"))
+  | "finalise" => return .finalise
+  | "addFinalizer" => return .addFinalizer
+  | o => .error s!"unknown call {o}"
+
+/-! ### JSON out -/
+
+def annJ (a : AnnMap) : Json := mkObj (a.reverse.map fun (k, v) => (k, strJ v))
+-- `mkObj` keeps the last binding of a key; `lookup` reads the first, hence the `reverse`
+
+def svcJ (s : SvcBackend) : Json :=
+  mkObj [("name", strJ s.name), ("portName", strJ s.portName), ("portNumber", intJ s.portNumber)]
+
+def pathJ (p : Path) : Json :=
+  mkObj [("path", strJ p.path), ("pathType", optJ strJ p.pathType),
+         ("svc", optJ svcJ p.backend.service), ("res", optJ strJ p.backend.resource)]
+
+def ruleJ (r : Rule) : Json :=
+  mkObj [("host", strJ r.host), ("http", optJ (fun ps => arrJ (ps.map pathJ)) r.http)]
+
+def tlsJ (t : TLS) : Json := mkObj [("hosts", arrJ (t.hosts.map strJ)), ("secret", strJ t.secret)]
+
+def ingressJ (i : Ingress) : Json :=
+  mkObj [("ann", annJ i.ann), ("labels", annJ i.labels), ("className", optJ strJ i.className),
+         ("tls", arrJ (i.tls.map tlsJ)), ("defaultBackend", boolJ i.defaultBackend),
+         ("rules", arrJ (i.rules.map ruleJ))]
+
+def luaResJ : Option AnnMap → Json
+  | none => mkObj [("err", boolJ true)]
+  | some a => mkObj [("ann", annJ a)]
+
+def errJ : Err → Json
+  | .ok => strJ "ok"
+  | .err => strJ "err"
+  | .notFound => strJ "notFound"
+
+def writeJ : Write → Json
+  | .create n => mkObj [("verb", strJ "create"), ("obj", strJ ("Ingress/" ++ n))]
+  | .patch n => mkObj [("verb", strJ "patch"), ("obj", strJ ("Ingress/" ++ n))]
+  | .delete n => mkObj [("verb", strJ "delete"), ("obj", strJ ("Ingress/" ++ n))]
+
+def canaryJ (c : CanaryObj) : Json :=
+  mkObj [("ingress", ingressJ c.ing), ("deleting", boolJ c.deleting), ("fin", boolJ c.fin)]
+
+def panicJ : Json := mkObj [("panic", boolJ true)]
+
+def isPanic (j : Json) : Bool := (jopt j "panic").isSome
+
+/-! ### reading the implementation's answers back (for the oracles) -/
+
+def writeOf (j : Json) : R Write := do
+  let obj ← fStr j "obj"
+  -- anything that is not an Ingress keeps its kind prefix and so can never equal the canary name
+  let name := if obj.startsWith "Ingress/" then (obj.drop 8).toString else obj
+  match ← fStr j "verb" with
+  | "create" => return .create name
+  | "patch" => return .patch name
+  | "delete" => return .delete name
+  | _ => return .create ("?" ++ obj)       -- update / deleteAllOf: never issued by the provider
+
+def canaryOf (j : Json) : R CanaryObj := do
+  return { ing := ← ingressOf (← jget j "ingress"), deleting := ← fBool j "deleting", fin := ← fBool j "fin" }
+
+/-! ### tags -/
+
+def classTag : Class → String
+  | .nginx => "nginx" | .alb => "aliyun-alb" | .higress => "higress" | .mse => "mse"
+
+def stepKind (mts : Option (List HttpMatch)) (rhm : Option (List HeaderKV)) (hasWeight : Bool) : String :=
+  let hs := match mts with | some ms => ms.any (fun m => !m.headers.isEmpty) | none => false
+  let qs := match mts with | some ms => ms.any (fun m => !m.queryParams.isEmpty) | none => false
+  let m := if hs && qs then "header+query" else if hs then "header" else if qs then "query"
+           else if mts.isSome then "emptymatch" else "nomatch"
+  (if hasWeight then "weight+" else "") ++ m ++ (if rhm.isSome then "+rhm" else "")
+
+def ingressTags (i : Ingress) : List String :=
+  let hostOnly := i.rules.any (fun r => r.http.isNone)
+  let nonSvc := i.rules.any (fun r => match r.http with
+    | some ps => ps.any (fun p => p.backend.service.isNone) | none => false)
+  [s!"rules:{i.rules.length}"] ++ (if hostOnly then ["rule-without-http"] else [])
+    ++ (if nonSvc then ["non-service-backend"] else [])
+    ++ (if i.ann.isEmpty then ["no-annotations"] else [])
+
+/-! ### ops -/
+
+def doBuild (inp impl : Json) : R OpResult := do
+  let cfg ← cfgOf inp
+  let st ← ingressOf (← jget inp "ingress")
+  let model := match buildCanaryIngress cfg st with
+    | .panic => panicJ
+    | .ok c => mkObj [("name", strJ cfg.canaryName), ("owner", boolJ true), ("ingress", ingressJ c)]
+  let noPanic := !isPanic impl
+  let paths ← if isPanic impl then pure true else do   -- a panic is reported by `noPanic`
+    let ci ← ingressOf (← jget impl "ingress")
+    pure (pathsOk cfg st.rules ci.rules)
+  let exp := expectedRules cfg st.rules
+  return { model := model,
+           holds := [("C14.noPanic", noPanic), ("C14.paths", paths)],
+           tags := ["op:build", s!"canary-rules:{exp.length}"] ++ ingressTags st
+                   ++ (if st.rules.isEmpty then ["trivial"] else []) }
+
+def doLua (inp _impl : Json) : R OpResult := do
+  let cls ← classOf (← fStr inp "class")
+  let a ← fAnn inp "ann"
+  let s ← goLuaStepOf inp
+  let r := executeLua cls a s.weight s.mts s.rhm
+  return { model := luaResJ r,
+           tags := ["op:lua", "class:" ++ classTag cls, "step:" ++ stepKind s.mts s.rhm s.weight.isSome,
+                    if r.isSome then "script-ok" else "script-error"] }
+
+def implAnn (j : Json) : R (Option AnnMap) :=
+  match jopt j "ann" with
+  | none => .ok none
+  | some a => do return some (← annOf a)
+
+def doLua2 (inp impl : Json) : R OpResult := do
+  let cls ← classOf (← fStr inp "class")
+  let a ← fAnn inp "ann"
+  let s1 ← goLuaStepOf (← jget inp "s1")
+  let s2 ← goLuaStepOf (← jget inp "s2")
+  let r1 := executeLua cls a s1.weight s1.mts s1.rhm
+  let r12 := match r1 with
+    | none => none
+    | some b => some (executeLua cls b s2.weight s2.mts s2.rhm)
+  let r2 := executeLua cls a s2.weight s2.mts s2.rhm
+  let model := mkObj [("r1", luaResJ r1), ("r12", optJ luaResJ r12), ("r2", luaResJ r2)]
+  -- oracle on the implementation's answers: if both steps were accepted after one another,
+  -- the second step alone is accepted and gives the same annotations
+  let i12 ← match jopt impl "r12" with
+    | none => pure none
+    | some j => implAnn j
+  let i2 ← implAnn (← jget impl "r2")
+  let hist := match i12, i2 with
+    | some c, some d => eqvB c d
+    | some _, none => false
+    | none, _ => true
+  let both := match r12 with | some (some _) => true | _ => false
+  return { model := model,
+           holds := [("C14.scriptHistory", hist)],
+           tags := ["op:lua2", "class:" ++ classTag cls,
+                    "pair:" ++ stepKind s1.mts s1.rhm false ++ "→" ++ stepKind s2.mts s2.rhm false]
+                   ++ (if both then [] else ["trivial"]) }
+
+structure SeqAcc where
+  w : World
+  out : List Json := []
+  stopped : Bool := false
+
+def doSeq (inp impl : Json) : R OpResult := do
+  let cfg ← cfgOf inp
+  let stable ← match jopt inp "stable" with
+    | none => pure none
+    | some j => do pure (some (← ingressOf j))
+  let calls ← jlistM callOf (← jget inp "calls")
+  -- model run
+  let acc := calls.foldl (init := ({ w := { stable := stable, canary := none } } : SeqAcc)) fun acc call =>
+    if acc.stopped then acc else
+    match stepCall cfg acc.w call with
+    | .panic => { acc with out := acc.out ++ [panicJ], stopped := true }
+    | .ret w' done e ws =>
+      let writes := match call with | .addFinalizer => [] | _ => ws
+      { acc with w := w',
+                 out := acc.out ++ [mkObj [("done", boolJ done), ("err", errJ e),
+                          ("canary", optJ canaryJ w'.canary), ("stableSame", boolJ true),
+                          ("writes", arrJ (writes.map writeJ))]] }
+  let model := mkObj [("steps", arrJ acc.out)]
+  -- oracles on the implementation's answers
+  let isteps ← jarr (← jget impl "steps")
+  let mut noPanic := true
+  let mut paths := true
+  let mut fresh := true
+  let mut frame := true
+  let mut fin := true
+  let mut prevCanary := false
+  let mut nFresh := 0
+  let mut created := false
+  let mut errs : List String := []
+  for (call, st) in calls.zip isteps do
+    if isPanic st then
+      noPanic := false
+    else
+      let canary ← match jopt st "canary" with
+        | none => pure none
+        | some j => do pure (some (← canaryOf j))
+      let err ← fStr st "err"
+      if err != "ok" && !errs.contains err then errs := errs ++ [err]
+      let ws ← jlistM writeOf (← jget st "writes")
+      if !(← fBool st "stableSame") || !(writesOk cfg ws) then frame := false
+      match canary, stable with
+      | some c, some s =>
+        created := true
+        if !(pathsOk cfg s.rules c.ing.rules) then paths := false
+      | some _, none => paths := false
+      | none, _ => pure ()
+      match call with
+      | .ensure s =>
+        if prevCanary && err == "ok" then
+          nFresh := nFresh + 1
+          match canary, stable with
+          | some c, some sti => if !(annAsFresh cfg.cls sti.ann (luaStepOf s) c.ing.ann) then fresh := false
+          | _, _ => fresh := false
+      | .finalise =>
+        if err == "ok" && !(finalisedOk canary) then fin := false
+      | .addFinalizer => pure ()
+      prevCanary := canary.isSome
+  let nEnsure := (calls.filter fun c => match c with | .ensure _ => true | _ => false).length
+  return { model := model,
+           holds := [("C14.noPanic", noPanic), ("C14.paths", paths), ("C14.fresh", fresh),
+                     ("C14.frame", frame), ("C14.finalise", fin)],
+           tags := ["op:seq", "class:" ++ classTag cfg.cls, s!"ensure-calls:{nEnsure}",
+                    s!"fresh-checks:{min nFresh 6}"]
+                   ++ (match stable with | some s => ingressTags s | none => ["no-stable-ingress"])
+                   ++ errs.map ("err:" ++ ·)
+                   ++ (if calls.any (· == .finalise) then ["has-finalise"] else [])
+                   ++ (if calls.any (· == .addFinalizer) then ["has-finalizer"] else [])
+                   ++ (if created then [] else ["canary-never-created"]) }
+
+def handle : Handler := fun op inp impl =>
+  match op with
+  | "build" => doBuild inp impl
+  | "lua" => doLua inp impl
+  | "lua2" => doLua2 inp impl
+  | "seq" => doSeq inp impl
+  | _ => .error s!"Ingress: op {op} not implemented"
+
 end RV.Drv.Ingress
